@@ -17,6 +17,7 @@ Ltac req :=
   first
     [ reflexivity
     | ring
+    | (unfold Rdiv; ring)
     | match goal with
       | |- exp _ = exp _ => apply f_equal; req
       | |- ln _ = ln _ => apply f_equal; req
@@ -42,14 +43,18 @@ Ltac req :=
       | |- (_, _) = (_, _) => apply f_equal2; req
       end ].
 
+Ltac tie :=
+  repeat match goal with |- context [if ?c then _ else _] => is_var c; destruct c end;
+  req.
+
 (** the threshold *)
 Lemma src_eps_range : 0 < src_eps <= 1 / 2.
 Proof. unfold src_eps. lra. Qed.
 
 Lemma tie_h2a hz rate : src_hertz_to_angular hz rate = h2a hz rate.
-Proof. unfold src_hertz_to_angular, h2a. req. Qed.
+Proof. unfold src_hertz_to_angular, h2a. tie. Qed.
 Lemma tie_a2h ang rate : src_angular_to_hertz ang rate = a2h ang rate.
-Proof. unfold src_angular_to_hertz, a2h. req. Qed.
+Proof. unfold src_angular_to_hertz, a2h. tie. Qed.
 
 (** flags and dtypes *)
 Definition dtype_of_src (d : src_dtype) : dtype :=
@@ -75,19 +80,19 @@ Proof. intros []; repeat split. Qed.
 
 (** triangular / Fbank *)
 Lemma tie_tri_K_real eps l m r : src_tri_K_real eps l m r = tri_K_real eps l m r.
-Proof. unfold src_tri_K_real, tri_K_real. req. Qed.
+Proof. unfold src_tri_K_real, tri_K_real. tie. Qed.
 Lemma tie_tri_supports K : src_tri_supports K = tri_supports K.
-Proof. unfold src_tri_supports, tri_supports. req. Qed.
+Proof. unfold src_tri_supports, tri_supports. tie. Qed.
 Lemma tie_fbank_K_real eps l m r : src_fbank_K_real eps l m r = fbank_K_real eps l m r.
-Proof. unfold src_fbank_K_real, fbank_K_real. req. Qed.
+Proof. unfold src_fbank_K_real, fbank_K_real. tie. Qed.
 Lemma tie_fbank_supports K : src_fbank_supports K = tri_supports K.
-Proof. unfold src_fbank_supports, tri_supports. req. Qed.
+Proof. unfold src_fbank_supports, tri_supports. tie. Qed.
 Lemma tie_tri_div_term l m r : src_tri_div_term l m r = tri_div_term l m r.
-Proof. unfold src_tri_div_term, tri_div_term. req. Qed.
+Proof. unfold src_tri_div_term, tri_div_term. tie. Qed.
 Lemma tie_tri_denom analytic l m r : src_tri_denom analytic l m r = tri_denom analytic l m r.
-Proof. unfold src_tri_denom, tri_denom, tri_denom0. req. Qed.
+Proof. unfold src_tri_denom, tri_denom, tri_denom0. tie. Qed.
 Lemma tie_tri_numer0 l m r : src_tri_numer0 l m r = tri_numer0 l m r.
-Proof. unfold src_tri_numer0, tri_numer0, tri_div_term. cbv zeta. req. Qed.
+Proof. unfold src_tri_numer0, tri_numer0, tri_div_term. cbv zeta. tie. Qed.
 Lemma tie_tri_val analytic l m r (t : Z) : t <> 0%Z ->
   tri_val analytic l m r t = (src_tri_val_re l m r (IZR t), src_tri_val_im analytic l m r (IZR t)).
 Proof. 
@@ -98,62 +103,61 @@ Proof.
 
 (** Gabor *)
 Lemma tie_gabor_t_support_const eps l2 : src_gabor_t_support_const eps l2 = gabor_t_support_const eps l2.
-Proof. unfold src_gabor_t_support_const, gabor_t_support_const. req. Qed.
+Proof. unfold src_gabor_t_support_const, gabor_t_support_const. tie. Qed.
 Lemma tie_gabor_f_support_const eps l2 : src_gabor_f_support_const eps l2 = gabor_f_support_const eps l2.
-Proof. unfold src_gabor_f_support_const, gabor_f_support_const. req. Qed.
+Proof. unfold src_gabor_f_support_const, gabor_f_support_const. tie. Qed.
 Lemma tie_gabor_bandwidth_const erb : src_gabor_bandwidth_const erb = gabor_bandwidth_const erb.
-Proof. unfold src_gabor_bandwidth_const, gabor_bandwidth_const. req. Qed.
+Proof. unfold src_gabor_bandwidth_const, gabor_bandwidth_const. tie. Qed.
 Lemma tie_gabor_std erb rate le re : src_gabor_std erb rate le re = gabor_std erb rate le re.
-Proof. unfold src_gabor_std, gabor_std, src_hertz_to_angular, h2a, src_gabor_bandwidth_const, gabor_bandwidth_const. cbv zeta. req. Qed.
+Proof. unfold src_gabor_std, gabor_std, src_hertz_to_angular, h2a, src_gabor_bandwidth_const, gabor_bandwidth_const. cbv zeta. tie. Qed.
 Lemma tie_gabor_diff_ang eps l2 std : src_gabor_diff_ang eps l2 std = gabor_diff_ang eps l2 std.
 Proof. 
-  unfold src_gabor_diff_ang, gabor_diff_ang. rewrite !tie_gabor_f_support_const. req.
+  unfold src_gabor_diff_ang, gabor_diff_ang. rewrite !tie_gabor_f_support_const. tie.
  Qed.
 Lemma tie_gabor_diff_samps eps l2 std : src_gabor_diff_samps eps l2 std = gabor_diff_samps eps l2 std.
 Proof. 
   unfold src_gabor_diff_samps, gabor_diff_samps, gabor_diff_samps_real.
-  rewrite !tie_gabor_t_support_const. destruct l2; req.
+  rewrite !tie_gabor_t_support_const. destruct l2; tie.
  Qed.
 Lemma tie_gabor_supports d : src_gabor_supports d = gabor_supports d.
-Proof. unfold src_gabor_supports, gabor_supports. req. Qed.
+Proof. unfold src_gabor_supports, gabor_supports. tie. Qed.
 Lemma tie_gabor_ir_const l2 std : src_gabor_ir_const l2 std = gabor_ir_const l2 std.
-Proof. unfold src_gabor_ir_const, gabor_ir_const. req. Qed.
+Proof. unfold src_gabor_ir_const, gabor_ir_const. tie. Qed.
 Lemma tie_gabor_val l2 std xi (t : Z) :
   gabor_val l2 std xi t = (src_gabor_val_re l2 std xi (IZR t), src_gabor_val_im l2 std xi (IZR t)).
 Proof. 
-  unfold gabor_val, src_gabor_val_re, src_gabor_val_im, gabor_env.
-  pose proof (tie_gabor_ir_const l2 std) as E. unfold src_gabor_ir_const in E.
-  unfold Cmult, RtoC, cis; cbn [fst snd]. rewrite <- E.
-  apply f_equal2; [rewrite Rmult_0_l, Rminus_0_r | rewrite Rmult_0_l, Rplus_0_r]; req.
+  unfold gabor_val, src_gabor_val_re, src_gabor_val_im, gabor_env, gabor_ir_const.
+  unfold Cmult, RtoC, cis; cbn [fst snd].
+  apply f_equal2; [rewrite Rmult_0_l, Rminus_0_r | rewrite Rmult_0_l, Rplus_0_r]; tie.
  Qed.
 Lemma tie_gabor_period_lo lo : src_gabor_period_lo lo = gabor_period_lo lo.
-Proof. unfold src_gabor_period_lo, gabor_period_lo. req. Qed.
+Proof. unfold src_gabor_period_lo, gabor_period_lo. tie. Qed.
 Lemma tie_gabor_period_hi hi : src_gabor_period_hi hi = gabor_period_hi hi.
-Proof. unfold src_gabor_period_hi, gabor_period_hi. req. Qed.
+Proof. unfold src_gabor_period_hi, gabor_period_hi. tie. Qed.
 Lemma tie_gabor_fr_term l2 std xi W idx period :
   src_gabor_fr_term l2 std xi W idx period =
   gabor_fr_term l2 std xi ((IZR idx / IZR W + IZR period) * 2 * PI).
-Proof. unfold src_gabor_fr_term, gabor_fr_term, gabor_fr_const. req. Qed.
+Proof. unfold src_gabor_fr_term, gabor_fr_term, gabor_fr_const. tie. Qed.
 
 (** gammatone *)
 Lemma tie_gt_alpha_const erb n : src_gt_alpha_const erb n = gt_alpha_const erb n.
-Proof. unfold src_gt_alpha_const, gt_alpha_const. req. Qed.
+Proof. unfold src_gt_alpha_const, gt_alpha_const. tie. Qed.
 Lemma tie_gt_log_alpha erb n rate le re : src_gt_log_alpha erb n rate le re = gt_log_alpha erb n rate le re.
-Proof. unfold src_gt_log_alpha, gt_log_alpha. rewrite tie_gt_alpha_const. unfold src_hertz_to_angular, h2a. req. Qed.
+Proof. unfold src_gt_log_alpha, gt_log_alpha. rewrite tie_gt_alpha_const. unfold src_hertz_to_angular, h2a. tie. Qed.
 Lemma tie_gt_log_c l2 n la : src_gt_log_c l2 n la = gt_log_c l2 n la.
-Proof. unfold src_gt_log_c, gt_log_c. req. Qed.
+Proof. unfold src_gt_log_c, gt_log_c. tie. Qed.
 Lemma tie_gt_offset mc n alpha : src_gt_offset mc n alpha = gt_offset mc n alpha.
-Proof. unfold src_gt_offset, gt_offset. req. Qed.
+Proof. unfold src_gt_offset, gt_offset. tie. Qed.
 Lemma tie_gt_supp_a eps n lc : src_gt_supp_a eps n lc = gt_supp_a eps n lc.
-Proof. unfold src_gt_supp_a, gt_supp_a. req. Qed.
+Proof. unfold src_gt_supp_a, gt_supp_a. tie. Qed.
 Lemma tie_gt_diff_ang eps n la lc : src_gt_diff_ang eps n la lc = gt_diff_ang eps n lc la.
-Proof. unfold src_gt_diff_ang, gt_diff_ang, gt_supp_a. req. Qed.
+Proof. unfold src_gt_diff_ang, gt_diff_ang, gt_supp_a. tie. Qed.
 Lemma tie_gt_h c alpha xi n offset t : offset < t ->
   gt_h c alpha xi n offset t = (src_gt_h_after_re n alpha c xi offset t, src_gt_h_after_im n alpha c xi offset t).
 Proof. 
   intros Ht. unfold gt_h. rewrite gt_habs_after by exact Ht.
   unfold src_gt_h_after_re, src_gt_h_after_im, Cmult, RtoC, cis; cbn [fst snd].
-  apply f_equal2; [rewrite Rmult_0_l, Rminus_0_r | rewrite Rmult_0_l, Rplus_0_r]; req.
+  apply f_equal2; [rewrite Rmult_0_l, Rminus_0_r | rewrite Rmult_0_l, Rplus_0_r]; tie.
  Qed.
 Lemma tie_gt_h_before c alpha xi n offset t : t <= offset -> gt_h c alpha xi n offset t = RtoC 0.
 Proof.
@@ -170,9 +174,9 @@ Proof.
   replace (-1 * omega * offset) with (- omega * offset) by ring. f_equal; ring.
 Qed.
 Lemma tie_gt_d c alpha n t : src_gt_d n alpha c t = gt_d c alpha n t.
-Proof. unfold src_gt_d, gt_d. req. Qed.
+Proof. unfold src_gt_d, gt_d. tie. Qed.
 Lemma tie_gt_search_start alpha n : src_gt_search_start n alpha = gt_newton_start alpha n.
-Proof. unfold src_gt_search_start, gt_newton_start. req. Qed.
+Proof. unfold src_gt_search_start, gt_newton_start. tie. Qed.
 (* one unfolding of the model's loop is the source's test and step *)
 Lemma tie_gt_search_loop fuel eps c alpha n offset right :
   gt_newton (S fuel) eps c alpha n offset right =
@@ -185,7 +189,7 @@ Proof.
   destruct (Rgt_dec (gt_habs c alpha n offset right) eps); reflexivity.
 Qed.
 Lemma tie_gt_supports offset right : src_gt_supports right offset = gt_supports offset right.
-Proof. unfold src_gt_supports, gt_supports. req. Qed.
+Proof. unfold src_gt_supports, gt_supports. tie. Qed.
 Lemma tie_gt_ir c alpha xi n offset sup W j :
   gt_ir c alpha xi n offset sup W j =
   Csum (fun period => gt_h c alpha xi n offset (IZR (src_gt_ir_t W j period)))
